@@ -77,6 +77,7 @@ type sfs struct {
 
 	listStyle int // 0: EOF with last entries; 1: EOF on following call; 2: short batches (tape); 3: exact fill then EOF
 	eofStyle  int // ReadAt at end: 0: (n, io.EOF); 1: (n, nil) when n>0, then (0, EOF)
+	partialErr bool // a failing ReadAt/WriteAt has moved some bytes before it fails: (n>0, err), as io.ReaderAt/io.WriterAt allow
 	shortRead bool
 	withClose bool // returned objects implement io.Closer
 	withTErr  bool // returned objects implement TransferError
@@ -203,6 +204,14 @@ func (o *sfObj) readAt(b []byte, off int64) (int, error) {
 	defer o.leave()
 	fs.gate(false, fmt.Sprintf("readat:%03d:%08d:%06d", o.id, off, len(b)))
 	if err := fs.record(sfCall{Method: "ReadAt", Obj: o.id, Off: off, N: len(b), Filepath: o.path}); err != nil {
+		if fs.partialErr && len(b) > 1 {
+			fs.mu.Lock()
+			defer fs.mu.Unlock()
+			if nd := fs.nodes[o.path]; nd != nil && nd.kind == 'f' && off >= 0 && off < int64(len(nd.data)) {
+				fs.sim.stats["fault.backend.partial-read"]++
+				return copy(b[:1+(len(b)-1)/2], nd.data[off:]), err
+			}
+		}
 		return 0, err
 	}
 	fs.mu.Lock()
